@@ -2,39 +2,16 @@
    regenerated each run) is syntactically equal to the parametric model (ArithModel.v, v_ generators);
    a literal-operand template equals the variable-operand model with the operand substituted (VSubst.v). *)
 From Coq Require Import ZArith Bool List String Lia.
-From Verif Require Import Base.Word256 C03.LIR C03.VSL C03.ArithSpec C03.ArithModel C03.TieBase C03.VSubst C03.GenVenom.
+From Verif Require Import Base.Word256 C03.LIR C03.VSL C03.ArithSpec C03.ArithModel C03.TieBase C03.VSubst C03.TieModels C03.GenVenom.
 Import ListNotations.
 Open Scope Z_scope.
 
-Definition vmodel (op : aop) (T : nty) : option vtemplate :=
-  match op with
-  | AAdd => Some (v_safe_add T) | ASub => Some (v_safe_sub T) | AMul => Some (v_safe_mul T)
-  | ADiv => Some (v_safe_div T) | AMod => Some (v_safe_mod T)
-  | _ => None
-  end.
-
-Definition vshape (sh lit : Z) (m : vtemplate) : vtemplate :=
-  if sh =? 1 then vsub "%1" lit m else if sh =? 2 then vsub "%2" lit m else m.
-
-Definition vtie_one (p : aop * nty * Z * Z * vtemplate) : bool :=
-  match p with (op, T, sh, lit, t) =>
-    ty_okb T && shape_okb T sh lit &&
-    match vmodel op T with
-    | Some m => vtemplate_eqb t (vshape sh lit m) && no_write "%1" (fst m) && no_write "%2" (fst m)
-    | None => false end end.
 Lemma tie_arith_venom : forallb vtie_one venom_templates = true.
 Proof. vm_compute. reflexivity. Qed.
 
-Definition vtie_clamp_one (p : nty * vtemplate) : bool :=
-  match p with (T, t) => ty_okb T && vtemplate_eqb t (v_clamp_basetype T) end.
 Lemma tie_clamp_venom : forallb vtie_clamp_one venom_clamps = true.
 Proof. vm_compute. reflexivity. Qed.
 
-Definition vexpected_keys : list (aop * nty * Z * Z) :=
-  flat_map (fun T =>
-    app (map (fun op => (op, T, 0, 0)) ops5)
-        (flat_map (fun lit => flat_map (fun op => [(op, T, 1, lit); (op, T, 2, lit)]) ops5) (lit_values T)))
-    num_types.
 Lemma family_complete_venom : map fst venom_templates = vexpected_keys.
 Proof. vm_compute. reflexivity. Qed.
 Lemma family_complete_venom_clamps : map fst venom_clamps = num_types.
